@@ -1248,20 +1248,15 @@ namespace
 
 int main(int argc, char** argv)
 {
-    Args a = parse_args(argc, argv);
-    return run_sharded(a,
-                       [&](Ctx& ctx)
-                       {
-                           if (a.property == "C09")
-                               run_c09(ctx);
-                           else if (a.property == "C16")
-                               run_c16(ctx);
-                           else if (a.property == "C20")
-                               run_c20(ctx);
-                           else
-                           {
-                               std::fprintf(stderr, "hist harness does not serve %s\n", a.property.c_str());
-                               std::_Exit(2);
-                           }
-                       });
+    return sse_main(argc, argv, { "C09", "C16", "C20" },
+                    [&](Ctx& ctx)
+                    {
+                        const Args& a = ctx.args;
+                        if (a.property == "C09")
+                            run_c09(ctx);
+                        else if (a.property == "C16")
+                            run_c16(ctx);
+                        else
+                            run_c20(ctx);
+                    });
 }
